@@ -592,7 +592,10 @@ class Parser:
         """Literal parts of an f-string hold source text: undouble braces and decode escapes."""
         for p in parts:
             if isinstance(p, ast.Constant) and isinstance(p.value, str):
-                p.value = self._decode_fstring_literal(p.value, raw)
+                try:
+                    p.value = self._decode_fstring_literal(p.value, raw)
+                except SyntaxError as e:  # an invalid escape (\x4, \N{no such name}) is an error as in any string literal
+                    self.raise_syntax_error_known_location(e.msg, p)
             elif isinstance(p, ast.FormattedValue) and isinstance(p.format_spec, ast.JoinedStr):
                 self._decode_fstring_parts(p.format_spec.values, raw)
         # a literal part that decodes to nothing (a backslash-newline only) is not a part
@@ -612,7 +615,7 @@ class Parser:
             return text + tail
         try:
             return ast.literal_eval(quote + text + quote) + tail
-        except (SyntaxError, ValueError):
+        except ValueError:
             return text + tail
 
     @staticmethod
